@@ -36,10 +36,10 @@ template<class T> static T VAL(int w, T small) { return w ? std::numeric_limits<
 
 struct Case { int st; uint32_t mask; int w; size_t pad; std::string str() const { return "st=" + std::to_string(st) + ";mask=" + std::to_string(mask) + ";w=" + std::to_string(w) + ";pad=" + std::to_string(pad); } };
 
-enum { ST_TS, ST_CT, ST_SIG, ST_Q, ST_RR, ST_MMD, ST_RPD, ST_QRE, ST_BP, ST_BS, ST_QR, ST_AEC, ST_MM, ST_STR, ST_IDX, ST_SH, ST_SP, ST_CP, ST_BPAR, ST_FP, NST };
+enum { ST_TS, ST_CT, ST_SIG, ST_Q, ST_RR, ST_MMD, ST_RPD, ST_QRE, ST_BP, ST_BS, ST_QR, ST_AEC, ST_MM, ST_STR, ST_IDX, ST_SH, ST_SP, ST_CP, ST_BPAR, ST_FP, ST_BLOCK, NST };
 static const char* SN[] = {"Timestamp", "ClassType", "QueryResponseSignature", "Question", "RR", "MalformedMessageData", "ResponseProcessingData", "QueryResponseExtended", "BlockPreamble",
-                           "BlockStatistics", "QueryResponse", "AddressEventCount", "MalformedMessage", "StringItem", "IndexListItem", "StorageHints", "StorageParameters", "CollectionParameters", "BlockParameters", "FilePreamble"};
-static const int NBITS[] = {2, 2, 17, 1, 2, 4, 2, 4, 1, 6, 16, 2, 4, 3, 3, 2, 9, 10, 12, 4};
+                           "BlockStatistics", "QueryResponse", "AddressEventCount", "MalformedMessage", "StringItem", "IndexListItem", "StorageHints", "StorageParameters", "CollectionParameters", "BlockParameters", "FilePreamble", "CdnsBlock"};
+static const int NBITS[] = {2, 2, 17, 1, 2, 4, 2, 4, 1, 6, 16, 2, 4, 3, 3, 2, 9, 10, 12, 4, 6};
 
 static StorageParameters mk_sp(uint32_t m, int w) {
     StorageParameters sp; if (w) { sp.ticks_per_second = UINT64_MAX; sp.max_block_items = UINT64_MAX; sp.storage_hints.query_response_hints = 0xffffffffu; sp.storage_hints.query_response_signature_hints = 0xffffffffu; sp.storage_hints.rr_hints = 255; sp.storage_hints.other_data_hints = 255; }
@@ -111,6 +111,16 @@ template<class Vis> static void visit(const Case& c, Vis&& V) {
         for (int i = 0; i < NS[m & 3]; i++) { BlockParameters bp; bp.storage_parameters = mk_sp(i % 2 ? 127 : 0, w); if (m & 8) { if (i % 2 == 0) bp.collection_parameters = CollectionParameters(); } else if (i % 3 == 1) bp.collection_parameters = mk_cp(1023, w); bps.push_back(bp); }
         FilePreamble fp(bps); if (m & 4) fp.m_private_version = boost::none; else fp.m_private_version = (uint8_t)(w ? 255 : 0); if (w) { fp.m_major_format_version = 255; fp.m_minor_format_version = 24; }
         V(fp, W, W); break; }
+    case ST_BLOCK: { // the block's own map and its nine tables: table (mask / 4; 9 = all of them) holds 0 / 1 / 24 / 256 entries, the others one each (array heads of 1, 2 and 3 bytes)
+        static const size_t SZ[] = {0, 1, 24, 256}; size_t which = (m / 4) % 10, n = SZ[m % 4]; CdnsBlock b;
+        auto cnt = [&](size_t t) { return (which == 9 || which == t) ? n : (size_t)1; };
+        for (size_t i = 0; i < cnt(0); i++) b.add_ip_address("ip" + std::to_string(i)); for (size_t i = 0; i < cnt(1); i++) { ClassType c; c.type = (uint16_t)i; c.class_ = 1; b.add_classtype(c); }
+        for (size_t i = 0; i < cnt(2); i++) b.add_name_rdata("n" + std::to_string(i)); for (size_t i = 0; i < cnt(3); i++) { QueryResponseSignature sg; sg.query_ancount = (uint32_t)i; if (w) sg.server_port = 65535; b.add_qr_signature(sg); }
+        for (size_t i = 0; i < cnt(4); i++) b.add_question_list({(index_t)i}); for (size_t i = 0; i < cnt(5); i++) { Question q; q.name_index = (index_t)i; q.classtype_index = 0; b.add_question(q); }
+        for (size_t i = 0; i < cnt(6); i++) b.add_rr_list({(index_t)i, 0}); for (size_t i = 0; i < cnt(7); i++) { RR r; r.name_index = (index_t)i; r.classtype_index = 0; if (w) r.ttl = 0xffffffffu; b.add_rr(r); }
+        for (size_t i = 0; i < cnt(8); i++) { MalformedMessageData md; md.server_port = (uint16_t)i; if (w) md.mm_payload = std::string(30, 'p'); b.add_malformed_message_data(md); }
+        if (w) { BlockStatistics st; st.processed_messages = 5; b.m_block_statistics = st; }
+        V(b, W, W); break; }
     }
 }
 
@@ -128,6 +138,7 @@ static void run_roundtrip(const Case& c, Result& R, std::vector<SV>& out) {
     visit(fc, [&](auto& x, auto wr, auto) { full_bytes = ser_of(x, wr); });
     visit(c, [&](auto& x, auto wr, auto wr2) {
         using X = typename std::decay<decltype(x)>::type;
+        if constexpr (std::is_same<X, CdnsBlock>::value) { (void)wr2; return; } else {   // a block is read through CdnsBlockRead (covered by the histories), not through X::read
         std::string B = ser_of(x, wr); R.count("traces"); R.count("transitions", 2); if (B.size() > 1) R.count("nontrivial");
         auto rd = [&](X& y, const std::string& bytes, const char* what) { std::istringstream is(bytes); CdnsDecoder d(is); try { y.read(d); return true; } catch (std::exception& ex) { out.push_back({"serrt|" + sn + "|read-rejects", sn + "::read rejects what " + sn + "::write produced (" + what + "): " + ex.what() + " [" + rep + "]"}); return false; } };
         X y{}; if (!rd(y, B, "fresh object")) return;
@@ -138,6 +149,7 @@ static void run_roundtrip(const Case& c, Result& R, std::vector<SV>& out) {
         std::string B2 = ser_of(z, wr2);
         if (B2 != B) out.push_back({"serrt|" + sn + "|reused-object", sn + ": an object that held other members before reads this item differently: " + ref::hex(B).substr(0, 80) + " vs " + ref::hex(B2).substr(0, 80) + " [" + rep + "]"});
         R.outcome(sn + (B.size() <= 1 ? ":1" : B.size() < 24 ? ":small" : ":large"));
+        }
     });
 }
 
@@ -154,7 +166,7 @@ int main(int argc, char** argv) {
     std::vector<std::pair<int, uint32_t>> sm;   // (structure, member mask)
     if (RT) fills = {0};
     for (int st = 0; st < NST; st++) {
-        if (which == "block" && st >= ST_SH) continue; if (which == "preamble" && st < ST_SH && st != ST_TS) continue;
+        if (which == "block" && st >= ST_SH && st != ST_BLOCK) continue; if (which == "preamble" && ((st < ST_SH && st != ST_TS) || st == ST_BLOCK)) continue;
         int nb = NBITS[st]; uint32_t full = (1u << nb) - 1; std::set<uint32_t> masks;
         if (nb <= 12) for (uint32_t m = 0; m <= full; m++) masks.insert(m);
         else { masks.insert(0); masks.insert(full); for (int i = 0; i < nb; i++) { masks.insert(1u << i); masks.insert(full & ~(1u << i)); for (int j = i + 1; j < nb; j++) { masks.insert((1u << i) | (1u << j)); if (T) masks.insert(full & ~((1u << i) | (1u << j))); } }
